@@ -1104,3 +1104,14 @@ VARIANTS['C18'] += [
     V('neutral: the validated flag survives a refresh (nothing is guarded by it)', [_carry_validated], None),
     V('neutral: representation checks skipped when this object was validated before (flag not carried)', [_guard_validated], None),
 ]
+
+VARIANTS['C16'] += [
+    V('raw FieldReader reads return short data again (fix 5c9977d reverted): the pssh key id loop spins on nothing',
+      [(FRF, "            if len(value) != size:\n                raise ValueError(\n                    f'{self.name}: expected {size} bytes for {field} but only {len(value)} are available')\n", "")],
+      'R16.13', 'ContentProtectionSpecificBox.parse'),
+    V('saiz per-sample sizes appended from a raw read',
+      [(MP4F, "                rv[\"sample_info_sizes\"].append(\n                    struct.unpack('B', src.read(1))[0])", "                rv[\"sample_info_sizes\"].append(src.read(1))")],
+      'R16.13', 'SampleAuxiliaryInformationSizesBox.parse'),
+    V('neutral: pssh key ids read through a local',
+      [(MP4F, "                rv[\"key_ids\"].append(r.get(16, 'kid'))", "                kid = r.get(16, 'kid')\n                rv[\"key_ids\"].append(kid)")], None),
+]
